@@ -172,7 +172,8 @@ def gate_term(c: dict, obs: dict) -> tuple[str, str]:
             f"{copt_z(c['ct'])} {cq.cbool(c['pie'])} {cq.cbool(c['low'])} {cq.cZ(NOW8)} {copt_z(c['press'])}")
     exp = (f"({cq.cbool(obs['slept'])}, {cq.cZ(e8(obs['until']))}, {cq.cbool(obs['changing_at'] is not None)}, "
            f"{cq.cbool(obs['matched'])}, {cq.cnat(obs['nfns'])})")
-    return f'gate_obs_eqb (gate_case {args}) {exp}', f'gate_case {args}'
+    low = f"Z.eqb (gate_case_low {cq.cZ(NOW8)} {copt_z(c['ct'])} {copt_z(c['press'])}) {cq.cZ(e8(obs['low_at']))}"
+    return f'gate_obs_eqb (gate_case {args}) {exp} && {low}', f'(gate_case {args}, gate_case_low {cq.cZ(NOW8)} {copt_z(c["ct"])} {copt_z(c["press"])})'
 
 
 def gate_monitor(c: dict, obs: dict, fail: Any) -> None:
@@ -330,6 +331,234 @@ def run_worker_case(cfgd: dict, actions: list[tuple]) -> dict:
 
 
 # ----------------------------------------------------------------------------------------------
+# cycle tie: the REAL worker + the REAL gate + the REAL stream_pressure, composed
+# ----------------------------------------------------------------------------------------------
+class CycleDriver(qd.Driver):
+    """The processor given to the real watcher/worker runs the real process_resource_causes (stubs for what
+    surrounds the gate, as in the D-tie), then a scripted handler outcome: whether a PATCH happens (a fresh
+    resourceVersion is returned to the worker) and how long the cycle takes."""
+
+    def __init__(self, cfg: qd.Config, script: list[tuple]) -> None:
+        super().__init__(cfg)
+        self.script = list(script)          # per processor call: (carried_patch, handler_patches, duration_eighths)
+        self.ncall = 0
+        self.steps_by_uid: dict[int, list[dict]] = collections.defaultdict(list)
+        self.runs_by_uid: dict[int, list[tuple]] = collections.defaultdict(list)
+        self.last_by_uid: dict[int, tuple[str, float] | None] = {}
+        self.arrive_times: dict[int, list[float]] = collections.defaultdict(list)
+        self.ctx_by_uid: dict[int, dict] = {}
+
+    def on_put(self, lq: Any, item: Any) -> None:
+        super().on_put(lq, item)
+        if lq.role == 'backlog' and not isinstance(item, self.q.EOS):
+            self.arrive_times[self.ident(item)[0]].append(self.loop.time())
+
+    def install(self) -> None:
+        super().install()
+        from kopf._cogs.structs import bodies, patches
+        from kopf._core.intents import causes
+        from kopf._core.reactor import processing
+        drv = self
+        for name in ('_detect_causes', '_Causes', 'process_watching_cause', 'process_changing_cause', 'process_resource_causes'):
+            if not hasattr(processing, name):
+                raise qd.ObservationMissing(f'processing.{name}')
+        self.processing, self.bodies, self.patches, self.causes = processing, bodies, patches, causes
+
+        def uid_of(body: Any) -> int:
+            return int(body['metadata']['uid'][1:])
+
+        def detect(**kw: Any) -> Any:
+            c = drv.ctx_by_uid[uid_of(kw['body'])]
+            return processing._Causes(None, None, c['cause'])
+
+        async def changing_stub(**kw: Any) -> list:
+            c = drv.ctx_by_uid[uid_of(kw['cause'].body)]
+            c['ran_at'] = drv.loop.time()
+            return []
+
+        self._patch(processing, '_detect_causes', detect)
+        self._patch(processing, 'process_changing_cause', changing_stub)
+
+    async def processor(self, *, raw_event: Any, stream_pressure: Any = None, resource_indexed: Any = None,
+                        operator_indexed: Any = None, consistency_time: Any = None) -> Any:
+        u, e = self.ident(raw_event)
+        self.pending_get = None
+        carried, handler_patches, dur8 = self.script[self.ncall % len(self.script)] if self.script else (False, False, 0)
+        self.ncall += 1
+        begin = self.loop.time()
+        rv = self.ev_rv.get(e)
+        body = self.bodies.Body(raw_event['object'])
+        patch = self.patches.Patch({'status': {'carried': 1}} if carried else {})
+        cause = types.SimpleNamespace(reason=self.causes.Reason.UPDATE, patch=patch, body=body)
+        ctx = {'cause': cause, 'ran_at': None}
+        self.ctx_by_uid[u] = ctx
+        pressure_at_entry = bool(stream_pressure.is_set())
+        registry = types.SimpleNamespace(
+            _changing=types.SimpleNamespace(prematch=lambda cause: True, requires_finalizer=lambda cause: False),
+            _spawning=types.SimpleNamespace(requires_finalizer=lambda **kw: False))
+        logger = types.SimpleNamespace(debug=lambda *a, **k: None, info=lambda *a, **k: None, warning=lambda *a, **k: None)
+        memory = types.SimpleNamespace(daemons_memory=types.SimpleNamespace(forever_stopped=set()))
+        await self.processing.process_resource_causes(
+            lifecycle=None, indexers=types.SimpleNamespace(indices=None), registry=registry, settings=self.settings,
+            resource=None, raw_event=raw_event, body=body, patch=patch, memory=memory, local_logger=logger,
+            event_logger=logger, stream_pressure=stream_pressure, operator_paused=None, consistency_time=consistency_time)
+        gate_left = self.loop.time()
+        ran = ctx['ran_at'] is not None
+        if dur8:
+            await asyncio.sleep(dur8 / 8)
+        patched = None
+        if carried or (ran and handler_patches):
+            self.rv_counter += 1
+            patched = str(self.rv_counter)
+            self.unechoed[u].append(patched)
+        end = self.loop.time()
+        if pressure_at_entry:
+            press = begin
+        else:
+            # arrivals of this object recorded after the entry (the watcher sets the pressure on each of them)
+            later = self.arrive_times[u][self._entry_counts[u]:]
+            press = later[0] if later and later[0] <= end else None
+        self.steps_by_uid[u].append({'rv': rv, 'begin': begin, 'pie': not carried, 'press': press, 'patched': patched,
+                                     'end': end, 'ct': consistency_time, 'gate_left': gate_left})
+        if ran:
+            self.runs_by_uid[u].append((ctx['ran_at'], rv, self.last_by_uid.get(u)))
+        if patched is not None and self.settings.persistence.consistency_timeout:
+            self.last_by_uid[u] = (patched, end)
+        call = {'u': u, 'e': e, 'outcome': 'ok'}
+        self.calls.append(call)
+        return patched
+
+    _entry_counts: dict[int, int] = {}
+
+
+def cycle_scenarios(r: random.Random, nrandom: int) -> list[tuple[dict, list[tuple], list[tuple]]]:
+    """Actions: ('M', u) a foreign edit on the server (gets the next resourceVersion, queued for delivery);
+    ('N', u) the watch stream delivers the next queued event of u — own patches are queued when the processor
+    returns them, so delivery is always in version order, with arbitrary lag; ('W', eighths) time passes
+    (timers fire on the way); 's'/'A'/'S' as in the driver."""
+    out = []
+    cfg = qd.Config(limit=None, indexed=False, nuids=2, idle=5.0, exit_timeout=2.0, ctimeout=3.0).as_dict()
+    for d in (0, 12, 23, 25, 72, None):           # echo delay in eighths: 0, T/2, T-1/8, T+1/8, 3T, never
+        for nf in range(4):                       # foreign events delivered between the patch and its echo
+            acts: list[tuple] = [('M', 0)] * (1 + nf) + [('N', 0), ('S',)]
+            total = d if d is not None else 80
+            for i in range(nf):
+                acts += [('W', max(1, total // (nf + 1))), ('S',), ('N', 0), ('S',)]
+            if d is not None:
+                acts += [('W', max(1, total - (total // (nf + 1)) * nf)), ('S',), ('N', 0), ('S',)]
+            acts += [('W', 100), ('S',), ('M', 0), ('N', 0), ('S',), ('N', 0), ('S',)]
+            for script in ([(False, True, 0)], [(False, True, 0), (False, False, 0)], [(False, True, 4), (True, False, 0), (False, False, 0)]):
+                out.append((cfg, acts, script))
+    for _ in range(nrandom):
+        n = r.randrange(5, 18)
+        acts = []
+        for _ in range(n):
+            x = r.random()
+            u = 0 if r.random() < 0.8 else 1
+            if x < 0.25:
+                acts.append(('M', u))
+            elif x < 0.60:
+                acts.append(('N', u))
+            elif x < 0.85:
+                acts.append(('W', r.choice([1, 3, 5, 9, 11, 13, 23, 25, 41, 47])))
+            elif x < 0.90:
+                acts.append(('s',))
+            else:
+                acts.append(('A',))
+            if r.random() < 0.8:
+                acts.append(('S',))
+        acts.append(('S',))
+        script = [(r.random() < 0.15, r.random() < 0.6, r.choice([0, 0, 1, 3, 7])) for _ in range(r.randrange(1, 6))]
+        c = qd.Config(limit=None, indexed=False, nuids=2, idle=5.0, exit_timeout=2.0, ctimeout=r.choice([3.0, 3.0, 1.0, 0.0])).as_dict()
+        out.append((c, acts, script))
+    return out
+
+
+def run_cycle_case(cfgd: dict, actions: list[tuple], script: list[tuple]) -> dict:
+    cfg = qd.Config.from_dict(cfgd)
+    res: dict[str, Any] = {'cfg': cfgd, 'actions': [list(a) for a in actions], 'script': [list(x) for x in script],
+                           'fails': [], 'breaks': [], 'terms': [], 'nontriv': False, 'stats': collections.Counter()}
+    drv = CycleDriver(cfg, script)
+    drv._entry_counts = collections.defaultdict(int)
+    orig_processor = drv.processor
+
+    async def processor(**kw: Any) -> Any:
+        u = drv.ident(kw['raw_event'])[0]
+        drv._entry_counts[u] = len(drv.arrive_times[u])     # arrivals recorded so far (incl. the one being processed)
+        return await orig_processor(**kw)
+    drv.processor = processor  # type: ignore[method-assign]
+    try:
+        with vloop.running(drv.loop):
+            drv.start()
+            for a in actions:
+                if a[0] == 'M':       # server-side edit: next version, queued for in-order delivery
+                    drv.rv_counter += 1
+                    drv.unechoed[a[1]].append(str(drv.rv_counter))
+                elif a[0] == 'N':
+                    drv.act(('E', a[1]))
+                elif a[0] == 'W':     # time passes; timers on the way fire at their own time
+                    target = drv.loop.time() + a[1] / 8
+                    drv.settle()
+                    while True:
+                        t = drv.loop.next_timer()
+                        if t is None or t > target:
+                            break
+                        drv.loop.advance_to(t)
+                        drv.settle()
+                    drv.loop.advance_to(target)
+                else:
+                    drv.act(tuple(a))
+            drv.settle()
+            # let outstanding waits finish
+            for _ in range(200):
+                t = drv.loop.next_timer()
+                if t is None or t > drv.loop.time() + 60:
+                    break
+                drv.loop.advance_to(t)
+                drv.settle()
+    except qd.ObservationMissing as e:
+        res['breaks'].append(f'observation point missing: {e}')
+    except Exception as e:
+        res['breaks'].append(f'scenario aborted: {type(e).__name__}: {e}')
+    finally:
+        drv.stop()
+    T = cfg.ctimeout
+    for u, steps in sorted(drv.steps_by_uid.items()):
+        runs = drv.runs_by_uid.get(u, [])
+        # ---- the property, read directly: view at least as new as the last own patch, or the timeout elapsed
+        for t, view, last in runs:
+            if last is not None and view is not None and int(view) < int(last[0]) and t < last[1] + T - 1e-9:
+                res['fails'].append({'what': "change handlers ran on a view older than the worker's own last patch before its echo "
+                                             'and before the consistency timeout', 'sig': 'stale-view',
+                                     'observed': {'uid': u, 'ran_at': t, 'view_rv': view}, 'expected': {'patched_rv': last[0], 'patched_at': last[1], 'timeout': T}})
+            if last is not None:
+                res['nontriv'] = True
+        # ---- the model
+        vs = [int(s['rv']) for s in steps if s['rv'] is not None]
+        res['stats']['delivered in version order' if vs == sorted(vs) else 'DELIVERED OUT OF ORDER'] += 1
+        boundary = any(s['press'] is not None and s['ct'] is not None and abs(s['press'] - s['ct']) < 1e-9 for s in steps)
+        res['stats']['steps'] += len(steps)
+        res['stats']['handler runs'] += len(runs)
+        res['stats']['steps with barrier'] += sum(1 for s in steps if s['ct'] is not None)
+        res['stats']['waits ended by pressure'] += sum(1 for s in steps if s['press'] is not None and s['ct'] is not None and s['gate_left'] < s['ct'] - 1e-9)
+        res['stats']['carried patch'] += sum(1 for s in steps if not s['pie'])
+        if boundary:
+            res['stats']['skipped: event exactly at the deadline'] += 1
+            continue
+        try:
+            ps = cq.clist(f"(mkP {copt_s(s['rv'])} {cq.cZ(e8(s['begin']))} true false {cq.cbool(s['pie'])} {cq.cbool(s['pie'])} "
+                          f"{copt_z(None if s['press'] is None else e8(s['press']))} {copt_s(s['patched'])} {cq.cZ(e8(s['end']))})" for s in steps)
+            ob = cq.clist(f"({cq.cZ(e8(t))}, {copt_s(v)}, {'None' if l is None else '(Some (' + cq.cstr(l[0]) + ', ' + cq.cZ(e8(l[1])) + '))'})"
+                          for t, v, l in runs)
+            res['terms'].append((f'cycle_ok {cq.cZ(e8(T))} {ps} {ob}', f'exec_views {cq.cZ(e8(T))} w0 None {ps}', u))
+        except cq.Unencodable as e:
+            res['breaks'].append(f'unencodable observation: {e}')
+    res['breaks'] += [b for b in drv.breaks if 'processor entered' not in b and 'two backlog gets' not in b]
+    res['stats'] = dict(res['stats'])
+    return res
+
+
+# ----------------------------------------------------------------------------------------------
 # closed loop: real operator, lagging watch stream
 # ----------------------------------------------------------------------------------------------
 CHANGE_KINDS = ('create', 'update', 'delete', 'resume', 'field')
@@ -340,13 +569,14 @@ def loop_scenarios(r: random.Random, nrandom: int) -> list[dict]:
     for lag in (0.0, 1.5, 2.875, 3.0, 3.125, 9.0):
         for foreign in ([], [0.25], [0.5, 1.0], [0.125, 1.5, 2.5]):
             for latency in (0.0, 0.125, 1.0):
-                out.append({'lag': lag, 'own_only': False, 'foreign': foreign, 'latency': latency, 'status_patch': False})
+                out.append({'lag': lag, 'own_only': False, 'foreign': foreign, 'latency': latency, 'status_patch': False,
+                            'index': latency == 0.0})
     for foreign in ([], [0.5], [0.5, 2.0, 3.5]):
         out.append({'lag': 1000.0, 'own_only': True, 'foreign': foreign, 'latency': 0.0, 'status_patch': False})   # the echo never arrives
     for _ in range(nrandom):
         out.append({'lag': r.choice([0.0, 0.5, 1.5, 2.875, 3.0, 3.125, 4.0, 9.0]), 'own_only': r.random() < 0.15,
                     'foreign': sorted(r.choice([0.125, 0.25, 0.5, 1.0, 1.5, 2.5, 3.5, 5.0]) for _ in range(r.randrange(0, 4))),
-                    'latency': r.choice([0.0, 0.0, 0.125, 1.0]), 'status_patch': r.random() < 0.6})
+                    'latency': r.choice([0.0, 0.0, 0.125, 1.0]), 'status_patch': r.random() < 0.6, 'index': r.random() < 0.5})
     return out
 
 
@@ -366,6 +596,8 @@ def run_loop_case(sc: dict) -> dict:
         if sc['status_patch']:
             up['patch'] = {'status': {'seen': {'by': 'up'}}}
         handlers = [{'kind': 'create', 'id': 'cr'}, up, {'kind': 'event', 'id': 'ev'}]
+        if sc.get('index'):
+            handlers.append({'kind': 'index', 'id': 'ix'})
         inc = w.operator('a', handlers, configure=configure).start()
         w.run_for(1.0)
         w.api.create(fakeapi.KOPFEXAMPLE, 'ns', 'x', {'spec': {'n': 0}})
@@ -409,6 +641,17 @@ def run_loop_case(sc: dict) -> dict:
             elif tc - td > slack:
                 res['fails'].append({'what': 'a raw-event handler was delayed (by the consistency barrier)', 'sig': 'raw-delayed',
                                      'observed': {'rv': rv, 'delivered_at': td, 'called_at': tc}, 'expected': {'slack': slack}})
+        if sc.get('index'):
+            ix_calls: dict[str, float] = {}
+            for c in w.calls:
+                if c['handler'] == 'ix' and c['rv'] is not None:
+                    ix_calls.setdefault(str(c['rv']), c['t'])
+            for td, rv in delivered:
+                tc = ix_calls.get(str(rv))
+                if tc is not None and tc - td > slack:
+                    res['fails'].append({'what': 'an index handler was delayed (by the consistency barrier)', 'sig': 'index-delayed',
+                                         'observed': {'rv': rv, 'delivered_at': td, 'called_at': tc}, 'expected': {'slack': slack}})
+            res['index_calls'] = len(ix_calls)
         res['calls'] = len(w.calls)
         res['patches'] = sum(len(v) for v in patches_by_uid.values())
         res['change_calls'] = sum(1 for c in w.calls if c['kind'] in CHANGE_KINDS)
@@ -438,6 +681,8 @@ def _work(job: tuple) -> list[Any]:
         return [run_worker_case(cfgd, acts) for cfgd, acts, _fam in items]
     if kind == 'loop':
         return [run_loop_case(sc) for sc in items]
+    if kind == 'cycle':
+        return [run_cycle_case(cfgd, acts, script) for cfgd, acts, script in items]
     raise ValueError(kind)
 
 
@@ -455,8 +700,9 @@ def run(ctx: fw.Ctx) -> int:
     gcases = gate_cases()
     wcases = worker_scenarios(r, ctx.scale(500, 30000))
     lcases = loop_scenarios(r, ctx.scale(60, 1500))
+    ccases = cycle_scenarios(r, ctx.scale(400, 20000))
     jobs = [('gate', ch) for ch in chunks(gcases, 200)] + [('worker', ch) for ch in chunks(wcases, 100)] + \
-           [('loop', ch) for ch in chunks(lcases, 10)]
+           [('loop', ch) for ch in chunks(lcases, 10)] + [('cycle', ch) for ch in chunks(ccases, 100)]
     results: list[tuple[str, Any]] = []
     with concurrent.futures.ProcessPoolExecutor(max_workers=fw.JOBS) as ex:
         for job, out in zip(jobs, ex.map(_work, jobs)):
@@ -464,7 +710,26 @@ def run(ctx: fw.Ctx) -> int:
 
     D: list[fw.Case] = []
     Tcases: dict[str, fw.Case] = {}
+    Ccases: dict[str, fw.Case] = {}
+    nbreak: dict[str, int] = {}
     for kind, x in results:
+        if kind == 'cycle':
+            data = {'family': 'cycle', 'cfg': x['cfg'], 'actions': x['actions'], 'script': x['script']}
+            for b in x['breaks']:
+                nbreak['cycle'] = nbreak.get('cycle', 0) + 1
+                if nbreak['cycle'] <= 3:
+                    ctx.correspondence_break('T:cycle driver', {'case': data, 'detail': b})
+            for f in x['fails']:
+                ctx.fail(f['what'], data, f['observed'], f['expected'], sig=f['sig'])
+            for term, diag, u in x['terms']:
+                key = hashlib.sha1(term.encode()).hexdigest()
+                if key not in Ccases:
+                    Ccases[key] = fw.Case(term, {**data, 'uid': u}, diag=diag)
+            for k, n in x['stats'].items():
+                ctx.count('cycle', k, n)
+            if x['nontriv']:
+                ctx.nontriv(['cycle', x['actions'], x['script'], x['cfg']['ctimeout']])
+            continue
         if kind == 'gate':
             c, obs = x
             if 'error' in obs:
@@ -487,7 +752,9 @@ def run(ctx: fw.Ctx) -> int:
         elif kind == 'worker':
             data = {'family': 'worker', 'cfg': x['cfg'], 'actions': x['actions']}
             for b in x['breaks']:
-                ctx.correspondence_break('T:worker driver', {'case': data, 'detail': b})
+                nbreak['worker'] = nbreak.get('worker', 0) + 1
+                if nbreak['worker'] <= 3:
+                    ctx.correspondence_break('T:worker driver', {'case': data, 'detail': b})
             for f in x['fails']:
                 ctx.fail(f['what'], data, f['observed'], f['expected'], sig=f['sig'])
             for term, diag, u in x['terms']:
@@ -510,6 +777,7 @@ def run(ctx: fw.Ctx) -> int:
             ctx.count('closed_loop', 'runs')
             ctx.count('closed_loop', 'PATCHes by the operator', x.get('patches', 0))
             ctx.count('closed_loop', 'change-handler calls', x.get('change_calls', 0))
+            ctx.count('closed_loop', 'index-handler calls checked', x.get('index_calls', 0))
             if x.get('nontriv'):
                 ctx.nontriv(['loop', x['case']])
                 ctx.sample({'family': 'closed-loop', **x['case']})
@@ -517,6 +785,7 @@ def run(ctx: fw.Ctx) -> int:
     ctx.cov['traces_validated_against_impl'] = len(Tcases)
     ctx.differential('D_gate', HEADER, D, shard=300)
     ctx.differential('T_worker', HEADER, list(Tcases.values()), shard=150)
+    ctx.differential('T_cycle', HEADER, list(Ccases.values()), shard=150)
     return ctx.finish(RULE, level_note=[
         'the gate is tied at function level: everything around it in process_resource_causes (_detect_causes, '
         'process_watching_cause, process_changing_cause, registry) is stubbed by the harness; aiotime.sleep is the real one',
@@ -535,6 +804,8 @@ def replay(ctx: fw.Ctx, body: dict) -> bool:
         fails = run_worker_case(case['cfg'], [tuple(a) for a in case['actions']])['fails']
     elif fam == 'closed-loop':
         fails = run_loop_case(case['scenario'])['fails']
+    elif fam == 'cycle':
+        fails = run_cycle_case(case['cfg'], [tuple(a) for a in case['actions']], [tuple(x) for x in case['script']])['fails']
     for f in fails:
         print(f"  {f['sig']}: {f['what']}: observed={f.get('observed')}")
     return bool(fails)
